@@ -312,6 +312,8 @@ def run(ctx):
         # destruction retires its predecessors and, once saturated, itself (the step protocol of both consumers)
         from rules import protocol
         protocol.report(ctx, tu, lambda r: True)
+        from rules import C03
+        C03.c03b_carry(ctx, tu)    # "live, unsaturated" is read off the limits: IN_SEQUENCE must keep them
         n += c02d(ctx, tu)
         units.append({"unit": tu.name, "functions": len(tu.fns)})
     ctx.floor("C02.d MAKE_MOCK routing instances", n, 20)
